@@ -14,4 +14,5 @@ def build(run):
     lifecycle.verify_shutdown(run)
     lifecycle.lifecycle_scans(run)
     lifecycle.verify_no_modification(run)
+    lifecycle.verify_maintask_addon(run)
     run.replayer('Circuit._run_tasks/raises:cancelled_while_waiting/post2', lambda run_, ob, model: open('/verif/specs/replay_c08a.py').read())
